@@ -253,6 +253,40 @@ def run_harness(lines, extra_args=None, binary=None):
     return out
 
 
+def memcheck(header, lines, budget=500, seed=1):
+    """Run a sample of protocol lines through the harness under valgrind memcheck (invalid reads / writes / frees,
+    definitely lost blocks; undefined-value errors are off: padding bytes of zero-copy values are uninitialised by
+    design and are printed). Returns (n_lines_run, None) or (n, {'lines': minimal failing lines, 'report': text}).
+    Supports the search for a failing input only."""
+    import random, shutil
+    if not shutil.which('valgrind') or not lines:
+        return 0, None
+    rng = random.Random(seed)
+    sample = lines if len(lines) <= budget else [lines[k] for k in sorted(rng.sample(range(len(lines)), budget))]
+    def run_vg(ls):
+        inp = '\n'.join(header + ls) + '\n'
+        p = subprocess.run(['valgrind', '-q', '--error-exitcode=99', '--undef-value-errors=no', '--leak-check=full',
+                            '--errors-for-leak-kinds=definite', HARNESS_BIN], input=inp, capture_output=True, text=True, timeout=3600)
+        return p.returncode, p.stderr
+    rc, err = run_vg(sample)
+    if rc != 99:
+        return len(sample), None
+    # bisect to a small failing subset (the harness has no state across lines besides the registered types)
+    cur = sample
+    while len(cur) > 1:
+        half = len(cur) // 2
+        a, b = cur[:half], cur[half:]
+        ra, ea = run_vg(a)
+        if ra == 99:
+            cur, err = a, ea; continue
+        rb, eb = run_vg(b)
+        if rb == 99:
+            cur, err = b, eb; continue
+        break      # only the combination fails: report it as it is
+    report = '\n'.join(l for l in err.splitlines() if l.startswith('==') )[-3000:]
+    return len(sample), {'lines': cur[:20], 'report': report}
+
+
 def run_model(names, lines):
     inp = '\n'.join(names + lines) + '\n'
     p = subprocess.run([DRIVER], input=inp, capture_output=True, text=True, timeout=3600)
